@@ -889,3 +889,116 @@ def t11(ctx, res):
         for c in calls:
             res.check(dotted(c.func) == "re.search" and c.args and norm(c.args[0]) == needle, f, c,
                       reason="Draft 6 patterns are not implicitly anchored: re.search, not match/fullmatch")
+
+
+# --------------------------------------------------------------------- T12
+@rule("T12", "a parsed object class is reused iff an equal class with the same title was seen before")
+def t12(ctx, res):
+    dd = ctx.func("_ParseState.dedupe")
+    o = dd.params[1].name
+    loops = [n for n in walk_own(dd.body) if isinstance(n, ast.For)]
+    ok = False
+    detail = {}
+    if len(loops) == 1:
+        lp = loops[0]
+        e = norm(lp.target)
+        it_ok = has("self.seen[MV_n]", lp.iter) and not isinstance(lp.iter, ast.Call)
+        body_ok = len(lp.body) == 1 and isinstance(lp.body[0], ast.If) and not lp.body[0].orelse
+        if body_ok:
+            t = lp.body[0].test
+            detail["test"] = norm(t)
+            eq = isinstance(t, ast.Compare) and len(t.ops) == 1 and isinstance(t.ops[0], ast.Eq) and \
+                {norm(t.left), norm(t.comparators[0])} == {o, e}
+            ret = has(f"return {e}", lp.body[0].body)
+            ok = it_ok and eq and ret
+    res.check(ok, dd, "for existing in self.seen[name]: if object_type == existing: return existing", detail=detail,
+              reason="every earlier class of the same title is compared by (structural) equality alone - an extra "
+                     "pre-filter or a narrower scan creates duplicate classes for one object schema")
+    nm = None
+    for node, b in find(f"MV_n = {o}.__name__", dd):
+        nm = name_of(b["MV_n"])
+    res.check(nm is not None and has(f"self.seen[{nm}].append({o})", dd) and has(f"return {o}", dd), dd,
+              "new classes are recorded under their title and returned", reason="later occurrences can find them")
+
+
+# --------------------------------------------------------------------- T13
+EQUALITY_DEDUPERS = ("remove_duplicates", "set", "frozenset", "dict.fromkeys", "OrderedDict.fromkeys", "unique")
+
+
+@rule("T13", "collections of elements / object classes are never de-duplicated or searched by structural equality")
+def t13(ctx, res):
+    inf = ctx.inf
+    n = 0
+    element = ctx.cls("Element")
+    for short in ("get_children", "get_object_classes", "orderer", "serialize_json", "_get_path", "serialize_python",
+                  "_get_single_element_imports"):
+        f = ctx.func(short)
+        funcs = [f] + list(f.nested.values())
+        for g in funcs:
+            for node in walk_own(g.body):
+                if isinstance(node, ast.Call) and (dotted(node.func) in EQUALITY_DEDUPERS) and node.args:
+                    n += 1
+                    arg = node.args[0]
+                    ets = inf.elem_type_of(arg, g) | inf.type_of(arg, g)
+                    holds_elements = any(t[0] in ("inst", "cls") and element in t[1].mro for t in ets)
+                    mapped = isinstance(arg, ast.Call) and dotted(arg.func) == "map"
+                    if dotted(node.func) in ("set", "frozenset") and (mapped or not holds_elements):
+                        res.ok(g, node, reason="a set of non-element values (ids, types, names)")
+                        continue
+                    res.check(not holds_elements and not _mentions_elements(arg), g, node,
+                              reason="equality of object classes ignores their names: two same-shaped classes with different "
+                                     "names would be merged, and one of them would vanish from the order / the definitions")
+                elif isinstance(node, ast.Compare) and any(isinstance(o, (ast.In, ast.NotIn)) for o in node.ops):
+                    right = node.comparators[0]
+                    ets = inf.elem_type_of(right, g)
+                    if any(t[0] in ("inst", "cls") and element in t[1].mro for t in ets):
+                        n += 1
+                        res.violation(g, node, reason="membership among elements is decided by structural equality, which ignores class names")
+    res.stat("equality_based_operations", n)
+
+
+def _mentions_elements(e):
+    t = norm(e)
+    return any(w in t for w in ("children", "object_classes", "get_children(", "get_object_classes(", "elements"))
+
+
+# --------------------------------------------------------------------- T14
+@rule("T14", "one parse state is threaded through every recursive parser call")
+def t14(ctx, res):
+    parser = ctx.prog.by_relpath.get("statham/schema/parser.py")
+    inf = ctx.inf
+    n = 0
+    for f in sorted(parser.funcs.values(), key=lambda f: f.qualname):
+        scopes = [f] + list(f.nested.values()) + f.lambdas
+        for g in scopes:
+            has_state = "state" in g.locals() or (g.parent is not None and "state" in g.parent.locals())
+            if not has_state:
+                continue
+            seen_nodes = set()
+            for s in inf.sites(g)[0]:
+                callee = s.callee
+                target = callee
+                if callee.short == "reraise._decorator._wrapper":
+                    target = ctx.func("parse_element")
+                if target.module is not parser or target.param("state") is None or s.kind != "call":
+                    continue
+                if id(s.node) in seen_nodes:
+                    continue
+                seen_nodes.add(id(s.node))
+                n += 1
+                call = s.node
+                passed = None
+                pos = [p.name for p in target.params if p.kind in ("pos", "posonly")]
+                if isinstance(call, ast.Call):
+                    if "state" in pos and pos.index("state") < len(call.args):
+                        passed = call.args[pos.index("state")]
+                    for k in call.keywords:
+                        if k.arg == "state":
+                            passed = k.value
+                res.check(passed is not None and norm(passed) == "state", g, call if isinstance(call, ast.AST) else str(call),
+                          reason="the caller's parse state is passed on: a call that omits it de-duplicates and names its object "
+                                 "classes against a private, empty state (duplicate class names in one document)")
+    res.floor("recursive_parser_calls", n, 20)
+    p = ctx.func("parse")
+    res.check(has("MV_s = _ParseState()", p) and len(find("parse_element(MV_x, MV_s)", p)) >= 2, p, "state = _ParseState(); shared by root and definitions",
+              reason="root and definitions share one state")
